@@ -483,9 +483,9 @@ func genCase(t *rapid.T, elect bool) Case {
 	}
 
 	// --- a few entries with very large certificate chains (rare: each costs megabytes)
-	if c.final() >= 4 && weighted(t, "big", 24, 1) == 1 {
-		c.BigN = rapid.IntRange(4, 6).Draw(t, "bigN")
-		c.BigKB = rapid.IntRange(700, 1100).Draw(t, "bigKB")
+	if c.final() >= 4 && weighted(t, "big", 32, 1) == 1 {
+		c.BigN = rapid.IntRange(4, 5).Draw(t, "bigN")
+		c.BigKB = rapid.IntRange(800, 1000).Draw(t, "bigKB")
 		c.BigAt = rapid.IntRange(0, c.final()-1).Draw(t, "bigAt")
 		if c.Batch < c.BigN+2 {
 			c.Batch = c.BigN + rapid.IntRange(0, 6).Draw(t, "bigBatch")
@@ -499,6 +499,9 @@ func genCase(t *rapid.T, elect bool) Case {
 
 	// --- schedule
 	c.Passes = 1 + weighted(t, "passes", 3, 4, 2)
+	if c.BigN > 0 && c.Passes > 2 {
+		c.Passes = 2 // every restart re-fetches megabytes
+	}
 	for p := 0; p < c.Passes; p++ {
 		a, ms := 0, int64(0)
 		switch weighted(t, "cancelClass", 6, 2, 2) {
